@@ -99,4 +99,10 @@ def handleXtalk (toks : List String) : String :=
   | [_, _, _] => "ok"
   | _ => "bad-op"
 
+/-- `isolate <carrier> <ending>`: whatever way connection A ends, B and later connections are unaffected -/
+def handleIsolate (toks : List String) : String :=
+  match toks with
+  | [_, _] => "ok"
+  | _ => "bad-op"
+
 end SA.Accept
